@@ -324,8 +324,9 @@ CHECKS["C13"] = dict(
          "Oracle: a reference interpreter written from the property statement and docs/user/rules.md (latest matching point "
          "per condition; rule = AND, empty = active; on each rule state change the list for the new state runs once in order "
          "- set-value point with the rule as origin, then the action marked active - and the opposite list is marked "
-         "inactive; schedule via the C14 reference) predicts every write; condition, rule and target writes are compared as "
-         "an exact sequence (subject, type, value, text, origin), action marks as a multiset. Non-trivial = >= 2 conditions of "
+         "inactive; schedule via the C14 reference) predicts every write; condition, rule and target writes are compared per "
+         "written node as an exact sequence (type, value, text, origin), action marks as a multiset; the order between "
+         "different nodes is not prescribed. Non-trivial = >= 2 conditions of "
          "different kinds and >= 2 rule state changes.",
     assumptions=["generated configurations are valid (documented value types and operators, parsable schedules); error reporting points are not part of the statement",
                  "set-value targets differ from the rule node", "a missing write is reported after 5 s; the rule's 10 s schedule ticker does not fire within a case"],
